@@ -43,6 +43,12 @@ def _html_chunk(vecs):
                     t = get_open_tag(doc, pos)
                     n = select_item_html(doc, pos)
                     p = select_item_html(doc, pos, True)
+                    if pos % 5 == 2:
+                        # what was handed out belongs to the caller: changed in place, the same questions still get the same answers
+                        common.scramble(t); common.scramble(n); common.scramble(p)
+                        t = get_open_tag(doc, pos)
+                        n = select_item_html(doc, pos)
+                        p = select_item_html(doc, pos, True)
                 if at['t'] == 0:
                     if t is not None and not at['c']:
                         bad.append(('get_open_tag', dict(case, expected=None, actual=t.to_json())))
@@ -93,6 +99,11 @@ def _css_chunk(vecs):
                     s = get_css_section(doc, pos, True)
                     n = select_item_css(doc, pos)
                     p = select_item_css(doc, pos, True)
+                    if pos % 5 == 2:
+                        common.scramble(s); common.scramble(n); common.scramble(p)
+                        s = get_css_section(doc, pos, True)
+                        n = select_item_css(doc, pos)
+                        p = select_item_css(doc, pos, True)
                 if at['sec'] == 0:
                     if s is not None:
                         bad.append(('css-section', dict(case, expected=None, actual=s.to_json())))
